@@ -879,3 +879,151 @@ Proof.
 Qed.
 
 End Factor.
+
+(* ------------------------------------------------------------------ final scores *)
+Lemma normalise_R : forall (g : N -> R) l,
+  @normalise RF (map (fun i => (i, g i)) l) =
+  map (fun i => (i, if Rlt_dec 0 (Rsum (map g l)) then g i / Rsum (map g l) else g i)) l.
+Proof.
+  intros g l. unfold normalise. rewrite map_snd_map_keys, fsum_Rsum. cbn [ltb RF zero].
+  destruct (Rlt_dec 0 (Rsum (map g l))); [rewrite map_map|]; reflexivity.
+Qed.
+
+(* normalising non-negative weights: a distribution, or all zero *)
+Lemma norm_dist : forall (l : list N) (w : N -> R),
+  (forall j, 0 <= w j) ->
+  let tot := Rsum (map w l) in
+  let sc := fun i => if Rlt_dec 0 tot then w i / tot else w i in
+  (forall i, In i l -> 0 <= sc i <= 1) /\ (Rsum (map sc l) = 1 \/ forall i, In i l -> sc i = 0).
+Proof.
+  intros l w Hw tot sc. unfold sc. destruct (Rlt_dec 0 tot) as [Hp|Hn].
+  - split.
+    + intros i Hi. pose proof (Rsum_ge_member w l i Hi (fun y _ => Hw y)) as Hle. fold tot in Hle. split.
+      * apply Rdiv_nonneg; [apply Hw|lra].
+      * apply (Rmult_le_reg_r tot); [assumption|]. unfold Rdiv. rewrite Rmult_assoc, Rinv_l by lra. lra.
+    + left. rewrite (Rsum_map_ext _ (fun i => / tot * w i)) by (intros; unfold Rdiv; lra).
+      rewrite Rsum_map_scal. fold tot. field. lra.
+  - assert (Ht : tot = 0).
+    { assert (0 <= tot) by (apply Rsum_map_nonneg; intros; apply Hw). lra. }
+    assert (Hz : forall i, In i l -> w i = 0).
+    { intros i Hi. pose proof (Rsum_ge_member w l i Hi (fun y _ => Hw y)) as Hle. fold tot in Hle.
+      pose proof (Hw i). lra. }
+    split; [intros i Hi; rewrite (Hz i Hi); lra|right; assumption].
+Qed.
+
+(* raising one weight (others unchanged) never lowers that entry's normalised share *)
+Lemma norm_mono : forall (l : list N) (w w' : N -> R) x,
+  NoDup l -> In x l -> (forall j, 0 <= w j) -> (forall j, j <> x -> w' j = w j) -> w x <= w' x ->
+  (if Rlt_dec 0 (Rsum (map w l)) then w x / Rsum (map w l) else w x) <=
+  (if Rlt_dec 0 (Rsum (map w' l)) then w' x / Rsum (map w' l) else w' x).
+Proof.
+  intros l w w' x Hnd Hin Hw Hsame Hle.
+  pose proof (Rsum_update w w' l x Hnd Hin Hsame) as Hup.
+  pose proof (Rsum_ge_member w l x Hin (fun y _ => Hw y)) as Hmem.
+  set (tot := Rsum (map w l)) in *. set (tot' := Rsum (map w' l)) in *.
+  pose proof (Hw x) as Hx.
+  destruct (Rlt_dec 0 tot) as [Hp|Hn].
+  - destruct (Rlt_dec 0 tot') as [Hp'|Hn']; [|lra].
+    apply Rdiv_le_cross; try assumption. rewrite Hup. nra.
+  - assert (w x = 0) by lra. destruct (Rlt_dec 0 tot') as [Hp'|Hn'].
+    + rewrite H. apply Rdiv_nonneg; lra.
+    + lra.
+Qed.
+
+Section Scores.
+Variable ln1p : N -> R.
+Hypothesis Hln : forall x, 0 <= ln1p x.
+
+Definition weight (st : state RF) (d : R) (i : N) : R :=
+  V (tv st) i * @factor RF ln1p (@stats_of RF st i) * d.
+
+Definition total (st : state RF) (d : R) : R := Rsum (map (weight st d) (@keys RF st)).
+
+Definition score (st : state RF) (d : R) (i : N) : R :=
+  if Rlt_dec 0 (total st d) then weight st d i / total st d else weight st d i.
+
+Lemma global_trust_R : forall st d, wf st -> @node_set RF st <> [] ->
+  @global_trust RF ln1p st d = map (fun i => (i, score st d i)) (@keys RF st).
+Proof.
+  intros st d Hwf Hne. unfold global_trust. destruct (@node_set RF st) eqn:E; [contradiction|]. rewrite <- E in Hne.
+  unfold finalise. fold (tv st). rewrite (tv_canon st Hwf Hne) at 1. rewrite map_map. cbn [fst snd mul RF].
+  rewrite (normalise_R (fun i => V (tv st) i * @factor RF ln1p (@stats_of RF st i) * d)). reflexivity.
+Qed.
+
+Lemma weight_nonneg : forall st d i, wf st -> @node_set RF st <> [] -> 0 <= d -> 0 <= weight st d i.
+Proof.
+  intros st d i Hwf Hne Hd. unfold weight. pose proof (proj1 (tv_dist st Hwf Hne) i). pose proof (factor_nonneg ln1p Hln (@stats_of RF st i)).
+  apply Rmult_le_pos; [apply Rmult_le_pos|]; assumption.
+Qed.
+
+Lemma global_trust_V : forall st d i, wf st -> @node_set RF st <> [] ->
+  V (@global_trust RF ln1p st d) i = if memN i (@keys RF st) then score st d i else 0.
+Proof. intros. rewrite global_trust_R by assumption. unfold V. apply vget_map_keys. Qed.
+
+(* C10_distribution on one computation *)
+Lemma scores_dist : forall st d, wf st -> @node_set RF st <> [] -> 0 <= d ->
+  (forall i, In i (@keys RF st) -> 0 <= score st d i <= 1) /\
+  (Rsum (map (score st d) (@keys RF st)) = 1 \/ forall i, In i (@keys RF st) -> score st d i = 0).
+Proof.
+  intros st d Hwf Hne Hd.
+  exact (norm_dist (@keys RF st) (weight st d) (fun j => weight_nonneg st d j Hwf Hne Hd)).
+Qed.
+
+(* the decay factor (the clock) cancels *)
+Lemma score_decay_irrelevant : forall st d1 d2 i, wf st -> @node_set RF st <> [] -> 0 < d1 -> 0 < d2 ->
+  score st d1 i = score st d2 i.
+Proof.
+  intros st d1 d2 i Hwf Hne H1 H2. unfold score.
+  assert (Ht : forall d, total st d = d * total st 1).
+  { intro d. unfold total. rewrite <- Rsum_map_scal. apply Rsum_map_ext. intros j _. unfold weight. ring. }
+  assert (Hw : forall d, weight st d i = d * weight st 1 i) by (intro d; unfold weight; ring).
+  assert (0 <= total st 1).
+  { unfold total. apply Rsum_map_nonneg. intros j _. apply weight_nonneg; try assumption. lra. }
+  rewrite (Ht d1), (Ht d2), (Hw d1), (Hw d2).
+  destruct (Rlt_dec 0 (d1 * total st 1)) as [A|A]; destruct (Rlt_dec 0 (d2 * total st 1)) as [B|B].
+  - field. split; [nra|lra].
+  - exfalso. apply B. assert (0 < total st 1) by nra. nra.
+  - exfalso. apply A. assert (0 < total st 1) by nra. nra.
+  - assert (total st 1 = 0) by nra.
+    assert (weight st 1 i = 0 \/ ~ In i (@keys RF st)) as [Hz|Hz].
+    { destruct (in_dec N.eq_dec i (@keys RF st)) as [Hi|Hi]; [left|right; assumption].
+      pose proof (Rsum_ge_member (weight st 1) (@keys RF st) i Hi (fun y _ => weight_nonneg st 1 y Hwf Hne ltac:(lra))) as Hm.
+      fold (total st 1) in Hm. pose proof (weight_nonneg st 1 i Hwf Hne ltac:(lra)). lra. }
+    + rewrite Hz. lra.
+    + (* outside the keys the vector is 0 *)
+      assert (V (tv st) i = 0).
+      { rewrite (tv_canon st Hwf Hne). unfold V. rewrite vget_map_keys. apply memN_false in Hz. rewrite Hz. reflexivity. }
+      unfold weight. rewrite H3. lra.
+Qed.
+
+(* two states with the same graph and anchors: same eigenvector part *)
+Lemma power_congr : forall st st' : state RF,
+  st_local st' = st_local st -> st_pre st' = st_pre st -> @node_set RF st' = @node_set RF st ->
+  @power RF st' = @power RF st /\ @keys RF st' = @keys RF st.
+Proof.
+  intros st st' El Ep En. unfold power, keys, extra_anchors. rewrite El, Ep, En. split; reflexivity.
+Qed.
+
+(* C10 monotonicity, abstractly: the same graph, one node's multiplier raised *)
+Lemma score_mono : forall st st' d x,
+  wf st -> @node_set RF st <> [] -> 0 <= d ->
+  st_local st' = st_local st -> st_pre st' = st_pre st -> @node_set RF st' = @node_set RF st ->
+  (forall j, j <> x -> @stats_of RF st' j = @stats_of RF st j) ->
+  @factor RF ln1p (@stats_of RF st x) <= @factor RF ln1p (@stats_of RF st' x) ->
+  In x (@keys RF st) ->
+  score st d x <= score st' d x.
+Proof.
+  intros st st' d x Hwf Hne Hd El Ep En Hsame Hf Hx.
+  destruct (power_congr st st' El Ep En) as [Epow Ekeys].
+  unfold score, total. rewrite Ekeys.
+  assert (Etv : tv st' = tv st) by (unfold tv; rewrite Epow; reflexivity).
+  apply norm_mono.
+  - apply sf_ks. exact Hwf.
+  - exact Hx.
+  - intro j. apply weight_nonneg; assumption.
+  - intros j Hj. unfold weight. rewrite Etv, (Hsame j Hj). reflexivity.
+  - unfold weight. rewrite Etv. pose proof (proj1 (tv_dist st Hwf Hne) x).
+    apply Rmult_le_compat_r; [assumption|]. apply Rmult_le_compat_l; assumption.
+Qed.
+
+End Scores.
